@@ -40,7 +40,7 @@ Definition parse_differs (r : option url) (spliced : list N) : Prop :=
    - set_host(Some ""): the empty host on a URL with a port (F-C02-4): "a://:80/p?q#f" does not parse *)
 Lemma splice_exclusions_refuted :
   Canon ex_hp ex_hp ex_hd qx_u /\ has_authority_b qx_u = true
-  /\ parse_differs (set_path true qx_u (B "x")) (splice_path qx_u (B "x")) /\ ~ path_arg_ok (B "x")
+  /\ parse_differs (set_path true qx_u (B "x")) (splice_path qx_u (B "x")) /\ ~ path_arg_ok (sp_of qx_u) (B "x")
   /\ parse_differs (set_path true qx_u (B "/a?b")) (splice_path qx_u (B "/a?b")) /\ forallb no_qh (B "/a?b") = false
   /\ parse_differs (ok_of (set_host true ex_hp ex_hp ex_hd qx_u (Some (B "x:81")))) (splice_host qx_u (B "x:81"))
   /\ forallb (hostarg (sp_of qx_u)) (B "x:81") = false
